@@ -254,6 +254,9 @@ def renormalise_singular_values(s: np.ndarray,
     """
     norm_old = np.sum(s)
     norm_new = np.sum(new_s)
+    if norm_new == 0:
+        # Nothing to rescale, avoids 0/0 for a vanishing spectrum.
+        return new_s
     new_s = new_s * norm_old / norm_new
     return new_s
 
